@@ -38,7 +38,9 @@ class Stats:
             self.labels["_nontrivial"] = self.labels.get("_nontrivial", 0) + 1
             self.nontrivial_keys.add(case_hash(res["key"]))
         sig = tuple(res["labels"])
-        if len(self.samples) < max_samples and sig not in self._sample_sigs:
+        n_triv = sum(1 for x in self.samples if not x["nontrivial"])
+        room = len(self.samples) < max_samples and (res["nontrivial"] or n_triv < 2)
+        if room and sig not in self._sample_sigs:
             self._sample_sigs.add(sig)
             s = json.dumps(case, default=str)
             if len(s) > 1500:
